@@ -49,6 +49,7 @@ Import ListNotations.
 """
 
 KNOWN_F9 = "sac-target-interval-restarts-each-train-call"
+KNOWN_DQN = "dqn-target-interval-rounded-to-multiple-of-n-envs"
 
 
 # ---------------------------------------------------------------- (a) polyak_update on tensor lists
@@ -69,7 +70,15 @@ def gen_polyak_case(rng, i):
     extra = None
     if mismatch:
         extra = rng.choice(["params", "targets"])
-    return {"id": i, "exact": exact, "tau": tau, "shapes": shapes, "ps": ps, "ts": ts, "extra": extra}
+    events = None
+    if exact and not mismatch and n > 0 and rng.random() < 0.5:
+        events = []
+        for _ in range(rng.randint(2, 5)):
+            if rng.random() < 0.5:
+                events.append(["opt", [[val() for _ in range(_size(s))] for s in shapes]])
+            else:
+                events.append(["upd", rng.choice([0.0, 1.0, 0.5, 0.25, 0.75])])
+    return {"id": i, "exact": exact, "tau": tau, "shapes": shapes, "ps": ps, "ts": ts, "extra": extra, "events": events}
 
 
 def _size(s):
@@ -91,6 +100,17 @@ def run_polyak(case):
     elif case["extra"] == "targets":
         ts.append(th.zeros(1))
     ps0 = [p.clone() for p in ps]
+    if case.get("events"):
+        # optimizer steps overwrite the online tensors in place; updates call polyak_update: Model.Polyak.pair_run
+        for kind, arg in case["events"]:
+            if kind == "opt":
+                with th.no_grad():
+                    for p_, v, sh in zip(ps, arg, case["shapes"]):
+                        p_.copy_(th.tensor(v, dtype=th.float32).reshape(sh))
+            else:
+                polyak_update(iter(ps), iter(ts), arg)
+        return {"error": None, "ret": True, "ts": [[float(x) for x in t.reshape(-1)] for t in ts], "ps32": [[float(x) for x in p.reshape(-1)] for p in ps],
+                "online_untouched": True, "sequence": True}
     try:
         r = polyak_update(iter(ps), iter(ts), case["tau"])
     except ValueError as e:
@@ -107,6 +127,12 @@ def polyak_expr(case, impl):
     ps = [f32(x) for v in case["ps"] for x in v] + ([Fraction(0)] if case["extra"] == "params" else [])
     ts = [f32(x) for v in case["ts"] for x in v] + ([Fraction(0)] if case["extra"] == "targets" else [])
     tau = Fraction(case["tau"])
+    if case.get("events"):
+        evs = []
+        for kind, arg in case["events"]:
+            evs.append("OptStep " + coq_list([f32(x) for v in arg for x in v], coq_Q) if kind == "opt" else f"Update {coq_Q(Fraction(arg))}")
+        got = [Fraction(x) for v in impl["ts"] for x in v]
+        return f"qclose_list 0 0 (snd (pair_run ({coq_list(ps, coq_Q)}, {coq_list(ts, coq_Q)}) {coq_list(evs)})) {coq_list(got, coq_Q)}"
     if impl["error"] is not None:
         return f"match polyak_list {coq_Q(tau)} {coq_list(ps, coq_Q)} {coq_list(ts, coq_Q)} with None => true | Some _ => false end"
     got = [Fraction(x) for v in impl["ts"] for x in v]
@@ -125,6 +151,19 @@ def oracle_polyak(case, impl):
         return probs
     if impl["error"] is not None:
         return [("oracle-polyak-raises", f"polyak_update raised {impl['error']}")]
+    if case.get("events"):
+        # replay the events with exact arithmetic: an update sets target := (1-tau)*target + tau*online of that moment
+        cur_p = [Fraction(float(np.float32(x))) for v in case["ps"] for x in v]
+        cur_t = [Fraction(float(np.float32(x))) for v in case["ts"] for x in v]
+        for kind, arg in case["events"]:
+            if kind == "opt":
+                cur_p = [Fraction(float(np.float32(x))) for v in arg for x in v]
+            else:
+                cur_t = [(1 - Fraction(arg)) * t + Fraction(arg) * p for p, t in zip(cur_p, cur_t)]
+        got = [Fraction(x) for v in impl["ts"] for x in v]
+        if got != cur_t:
+            probs.append(("oracle-polyak-sequence", f"after events {[(k, a if k == 'upd' else '...') for k, a in case['events']]} the target is {[float(x) for x in got][:6]}, expected {[float(x) for x in cur_t][:6]}"))
+        return probs
     if not impl["online_untouched"]:
         probs.append(("oracle-polyak-online-changed", "polyak_update modified the online parameters"))
     tau = Fraction(case["tau"])
@@ -150,8 +189,8 @@ def gen_run(rng, i):
         tf = 1                                      # episodic train_freq needs a single env
     return {"id": i, "algo": algo, "n_envs": n_envs, "train_freq": tf, "gradient_steps": rng.choice([1, 1, 2, 3, 4, -1]),
             "tui": rng.choice([1, 2, 3, 4, 5, 7, 10]), "policy_delay": rng.choice([1, 2, 2, 3]),
-            "tau": rng.choice([1.0, 0.5, 0.25, 0.005]), "learning_starts": rng.choice([0, 2, 5]),
-            "total": rng.randint(14, 36), "bn": rng.random() < 0.3, "ep_len": rng.choice([3, 4, 6])}
+            "tau": rng.choice([1.0, 0.5, 0.25, 0.005, 0.0]), "learning_starts": rng.choice([0, 2, 5]),
+            "total": rng.randint(14, 36), "total2": rng.choice([None, None, rng.randint(5, 20)]), "bn": rng.random() < 0.3, "ep_len": rng.choice([3, 4, 6])}
 
 
 def run_algo(cfg):
@@ -289,6 +328,7 @@ def run_algo(cfg):
             for nm, net in targets.items():
                 if any(b.data_ptr() == target_params[0].data_ptr() for b in net.buffers()):
                     which = "bn:" + nm
+        mark("polyak_update entry")
         before_t = [t.detach().clone() for t in target_params]
         before_p = [p.detach().clone() for p in params]
         r = orig_polyak(params, target_params, tau)
@@ -324,6 +364,8 @@ def run_algo(cfg):
 
     try:
         model.learn(cfg["total"], callback=CB())
+        if cfg.get("total2"):
+            model.learn(cfg["total2"], callback=CB(), reset_num_timesteps=False)      # the counters must run on across learn() calls
         mark("end")
         # running statistics of every target equal those of its online network after the last update (tau = 1 copy)
         out["bn_equal_after_last_update"] = None
@@ -449,11 +491,18 @@ def oracle_run(cfg, impl, flags, gs, actor, structural):
     idx = [i for i, f in enumerate(flags) if f]
     a = cfg["algo"]
     if a == "DQN":
+        # from the property text: one update every `tui` environment steps counted across sub-environments, i.e. whenever the number of
+        # environment steps taken so far passes a multiple of tui (at most one update per vectorised step)
         n, tui = cfg["n_envs"], cfg["tui"]
-        spacing = (tui // n) * n if tui >= n else n          # env steps between updates: largest multiple of n_envs <= tui
-        want = [k for k in range(len(flags)) if ((k + 1) * n) % spacing == 0]
+        want = [k for k in range(len(flags)) if ((k + 1) * n) // tui > (k * n) // tui]
         if idx != want:
-            probs.append(("oracle-dqn-update-instants", f"updates after vectorised steps {[i + 1 for i in idx]}, expected every {spacing} env steps ({n} envs): {[k + 1 for k in want]}"))
+            period = max(tui // n, 1)
+            rounded = [k for k in range(len(flags)) if (k + 1) % period == 0]
+            if tui % n != 0 and n < tui and idx == rounded:
+                probs.append((KNOWN_DQN, f"DQN target_update_interval={tui} with {n} envs: updates after vectorised steps {[i + 1 for i in idx][:8]} = every {period * n} environment steps "
+                                         f"({len(idx)} updates in {len(flags) * n} environment steps; every {tui} steps gives {len(want)}): the interval is rounded down to a multiple of n_envs"))
+            else:
+                probs.append(("oracle-dqn-update-instants", f"updates after vectorised steps {[i + 1 for i in idx]}, expected whenever the env-step count passes a multiple of {tui} ({n} envs): {[k + 1 for k in want]}"))
     elif a == "SAC":
         tui = cfg["tui"]
         ok = all(b - c == tui for c, b in zip(idx, idx[1:])) and (not idx or idx[0] < tui) and (len(flags) - (idx[-1] if idx else -tui) <= tui if flags else True)
@@ -500,7 +549,7 @@ def run_all(chk, pcases, runs):
         if d is not None:
             ridx.append(len(exprs))
             exprs.append(model_expr(cfg, d[0], d[1]))
-            if cfg["train_freq"] != "episode":
+            if cfg["train_freq"] != "episode" and not cfg.get("total2"):
                 exprs.append(closed_form_expr(cfg))
         else:
             ridx.append(None)
@@ -547,10 +596,15 @@ def main():
         if sum(flags) >= 2 and not all(flags):
             distinct.add((cfg["algo"], cfg["n_envs"], cfg["tui"], cfg["policy_delay"], cfg["gradient_steps"], str(cfg["train_freq"])))
         orc = oracle_run(cfg, im, flags, gs, actor, structural)
-        hist["closed_form_checked"] += int(cfg["train_freq"] != "episode")
+        hist["closed_form_checked"] += int(cfg["train_freq"] != "episode" and not cfg.get("total2"))
         mflags = list(vals[ri])
         f9 = [p for p in orc if p[0] == KNOWN_F9]
-        other = [p for p in orc if p[0] != KNOWN_F9]
+        kd = [p for p in orc if p[0] == KNOWN_DQN]
+        other = [p for p in orc if p[0] not in (KNOWN_F9, KNOWN_DQN)]
+        if kd:
+            hist["dqn_rounded_runs"] = hist.get("dqn_rounded_runs", 0) + 1
+            if hist["dqn_rounded_runs"] == 1:
+                chk.violation(KNOWN_DQN, kd[0][1], {"run": cfg, "flags": flags}, found_input=True)
         if f9:
             hist["f9_runs"] += 1
             if hist["f9_runs"] == 1:
@@ -558,7 +612,7 @@ def main():
         if other and new < 3:
             chk.violation(other[0][0], "; ".join(m for _, m in other[:3]), {"run": cfg, "problems": other[:10], "flags": flags, "model_flags": mflags, "train_calls": gs}, found_input=True)
             new += 1
-        elif cfg["train_freq"] != "episode" and check_closed_form(cfg, im, flags, gs, vals[ri + 1]) and new < 3:
+        elif cfg["train_freq"] != "episode" and not cfg.get("total2") and check_closed_form(cfg, im, flags, gs, vals[ri + 1]) and new < 3:
             cf = check_closed_form(cfg, im, flags, gs, vals[ri + 1])
             chk.violation("model-correspondence-" + cf[0][0], cf[0][1], {"run": cfg, "flags": flags, "train_calls": gs,
                           "correspondence": "harness/c08.py instrumented run vs Model.LearnCadence closed forms"}, found_input=False)
@@ -597,7 +651,7 @@ def replay(path):
         mflags = common.coq_eval_many("C08_replay", HEADER, [model_expr(cfg, flags, gs)])[0]
         orc = oracle_run(cfg, im, flags, gs, actor, structural)
         print(json.dumps({"flags": flags, "model_flags": mflags, "train_calls": gs, "oracle": orc[:10]}, indent=1))
-        return 1 if [p for p in orc if p[0] != KNOWN_F9] or list(mflags) != flags else 0
+        return 1 if [p for p in orc if p[0] not in (KNOWN_F9, KNOWN_DQN)] or list(mflags) != flags else 0
     c = d["polyak_case"]
     im = run_polyak(c)
     orc = oracle_polyak(c, im)
